@@ -1869,9 +1869,19 @@ export class AnyOfDiscriminatedRuntype extends BaseRuntype {
   }
   private getSchemaVariantRefs(ctx: SchemaContext): Array<{ key: string; ref: string }> {
     const unionHash = this.hash({ seen: Object.create(null) });
-    return Object.entries(this.schemaMapping).map(([key, schema]) => ({
+    const entries = Object.entries(this.schemaMapping);
+    // discriminator values that read the same once sanitised ("a-b", "a_b", "a b") must not share a definition name
+    const parts = entries.map(([key]) => AnyOfDiscriminatedRuntype.sanitizeComponentNamePart(key));
+    return entries.map(([key, schema], i) => ({
       key,
-      ref: this.ensureSchemaVariantRef(schema, key, unionHash, ctx),
+      ref: this.ensureSchemaVariantRef(
+        schema,
+        parts.indexOf(parts[i]) === parts.lastIndexOf(parts[i])
+          ? key
+          : `${key} ${Math.abs(generateHashFromString(key))}`,
+        unionHash,
+        ctx,
+      ),
     }));
   }
 
